@@ -50,6 +50,8 @@ def shards(tier):
             out.append(("value", r[0], r[1], tier, 0, 1))
     out.append(("inverse", tier))
     out.append(("declare",))
+    for part in range(8):
+        out.append(("derived", tier, part, 8))
     return out
 
 
@@ -253,6 +255,42 @@ def run_shard(shard):
         res["evaluations"] += n
         sample(res, {"declarations": n, "access_types": [t.name for t in types]})
         return res
+    if k == "derived":
+        # values an application derives from the library's declared ones for a vendor bank (same encoding and limits) with the
+        # MASK / TMASK conventions switched off: "recognised ... when the value supports them" - and only then
+        import itertools
+        from dali.memory.location import MemoryBank, MemoryLocation, MemoryType
+        tier = shard[1]
+        n = 0
+        for i, (key, row) in enumerate(rows.items()):
+            cls = vals.get(key)
+            if cls is None or row[2] not in ("numeric", "fixedscale", "temperature", "scaled", "cct") or not (row[6] or row[7]):
+                continue
+            if len(shard) > 3 and i % shard[3] != shard[2]:
+                continue
+            for ms, ts in itertools.product((False, True), repeat=2):
+                if (ms and not row[6]) or (ts and not row[7]) or (ms, ts) == (row[6], row[7]):
+                    continue
+                vbank = MemoryBank(100 + (i % 100), 0xFE, has_lock=True)
+                locs = tuple(MemoryLocation(l.address, type_=l.type_) for l in cls.locations)
+                try:
+                    sub = type("Vendor" + key[1], (cls,), {"bank": vbank, "locations": locs, "mask_supported": ms, "tmask_supported": ts})
+                except Exception as e:
+                    add_violation(res, f"C11:derived:declare-raises:{key[1]}", f"deriving a vendor value from {key[1]}: {e!r}", {"t": "derived", "name": key[1]})
+                    continue
+                row2 = row[:6] + (ms, ts) + row[8:]
+                nv0 = len(res["violations"])
+                for raw in raws_for(row, tier):
+                    check_value(res, sub, row2, raw)
+                    n += 1
+                for v in res["violations"][nv0:]:
+                    v["key"] = v["key"].replace("C11:", "C11:derived:", 1)
+                    v["message"] = f"[user subclass of {key[1]} with mask_supported={ms}, tmask_supported={ts}] " + v["message"]
+                    v["case"] = {"t": "derived", "name": key[1]}
+                res["distinct"].add(("derived", key[1], ms, ts))
+        res["evaluations"] += n
+        sample(res, {"derived_values_decoded": n})
+        return res
     if k == "value":
         _, bname, name, tier, part, parts = shard
         row = rows[(bname, name)]
@@ -376,4 +414,6 @@ def replay(case):
         return run_shard(("layout",))["violations"]
     if t == "declare":
         return run_shard(("declare",))["violations"]
+    if t == "derived":
+        return [v for p in range(8) for v in run_shard(("derived", "quick", p, 8))["violations"] if v["case"] == case]
     return run_shard(("inverse", "quick"))["violations"]
